@@ -22,6 +22,7 @@ func init() {
 		Rule: "random glyph sets (nil / simple / composite glyphs; simple glyph bodies written by the independent encoder glyfref with every flag/coordinate form drawn at random, 0..3 padding bytes; composites with all 16 argument/transform size combinations, with and without instructions; totals on both sides of 65535 and 131070 bytes) are (a) encoded by the library and decoded again, loca parsed independently; (b) assembled into glyf/loca bytes by the harness in both loca formats and decoded by the library; every simple glyph is point-decoded by the library and by glyfref; Components/FixComponents compared with the generated lists. distinct = distinct glyph bodies (hash)",
 		Assumptions: []string{
 			"composite glyphs carry instructions iff a component has WE_HAVE_INSTRUCTIONS (well-formed per the spec)",
+			"every coordinate and every delta of a simple glyph is an int16 (one contour in eight runs along the limits: coordinates +32767 / -32768, deltas +32767 / -32768); delta sums that leave the int16 range are not generated, the format does not say what they mean",
 			"simple glyph normal form = body without trailing padding",
 			"glyfref (own code from the OpenType glyf chapter) is right where it agrees with the library; x/image is the third opinion in C03",
 		},
@@ -52,8 +53,48 @@ func c11simple(r *rand.Rand, forms glyfref.Forms) (*glyfref.Simple, []byte) {
 		}
 		c := make([]glyfref.Point, np)
 		mode := r.IntN(5)
+		if r.IntN(8) == 0 {
+			mode = 5
+		}
 		for j := range c {
 			var dx, dy int16
+			if mode == 5 {
+				// coordinates at the limits of the int16 range, long deltas of the
+				// largest magnitude; every delta and every coordinate is an int16
+				// (sums that leave the range are not generated: the format does
+				// not say what they mean)
+				next := func(cur int16) int16 {
+					for {
+						t := []int16{32767, -32768, 32766, -32767, 0, 1, -1, 16384, -16384, 32767, -32768}[r.IntN(11)]
+						if d := int32(t) - int32(cur); d >= -32768 && d <= 32767 {
+							return t
+						}
+					}
+				}
+				nx, ny := x, y
+				if r.IntN(3) != 0 {
+					nx = next(x)
+				}
+				if r.IntN(3) != 0 {
+					ny = next(y)
+				}
+				if forms != nil {
+					for _, v := range [][2]int16{{x, nx}, {y, ny}} {
+						switch d := int32(v[1]) - int32(v[0]); {
+						case d == 32767:
+							forms["delta=+32767"]++
+						case d == -32768:
+							forms["delta=-32768"]++
+						}
+						if v[1] == 32767 || v[1] == -32768 {
+							forms["coordinate-at-int16-limit"]++
+						}
+					}
+				}
+				x, y = nx, ny
+				c[j] = glyfref.Point{X: x, Y: y, OnCurve: r.IntN(3) != 0}
+				continue
+			}
 			switch mode {
 			case 0: // identical flags: long runs
 				dx, dy = 3, 0
@@ -76,6 +117,13 @@ func c11simple(r *rand.Rand, forms glyfref.Forms) (*glyfref.Simple, []byte) {
 			}
 			if ny > 16000 || ny < -16000 {
 				ny = int32(y) - int32(dy)
+			}
+			// (behind a contour at the int16 limits: come back in one representable step)
+			if nx > 16000 || nx < -16000 {
+				nx = int32(x) / 2
+			}
+			if ny > 16000 || ny < -16000 {
+				ny = int32(y) / 2
 			}
 			x, y = int16(nx), int16(ny)
 			on := r.IntN(3) != 0
@@ -169,8 +217,15 @@ func c11composite(r *rand.Rand, numGlyphs int, k *mon.Case) ([]glyfref.Component
 			k.Class("composite:instructions-flag-not-on-last-component")
 		}
 		instr = make([]byte, r.IntN(40))
+		if r.IntN(5) == 0 {
+			// the length is a 16-bit field: blocks that need its high byte
+			instr = make([]byte, []int{255, 256, 257, 300 + r.IntN(700), 4096 + r.IntN(100)}[r.IntN(5)])
+		}
 		for j := range instr {
 			instr[j] = byte(r.Uint32())
+		}
+		if len(instr) >= 256 {
+			k.Class("composite:instructions>=256-bytes")
 		}
 		k.Class("composite:instructions")
 	} else {
@@ -336,6 +391,9 @@ func runC11(c *mon.Ctx) {
 				if r.IntN(3) == 0 {
 					g.pad = r.IntN(4)
 				}
+				if len(g.simple.Instructions) >= 256 {
+					k.Class("simple:instructions>=256-bytes")
+				}
 				if g.nc == 0 {
 					k.Class("zero-contour-glyph")
 				}
@@ -407,7 +465,8 @@ func runC11(c *mon.Ctx) {
 	})
 	req := []string{"zero-contour-glyph", "simple-decoded", "composite-checked", "loca-format-0", "loca-format-1",
 		"harness-loca-format-0", "harness-loca-format-1", "composite:instructions", "composite:no-instructions",
-		"form:repeat-0", "form:repeat-1", "form:repeat-n", "form:repeat-255", "composite:instructions-flag-not-on-last-component", "form:flag-literal", "form:overlap-bit", "size<=65535", "size>131070"}
+		"form:repeat-0", "form:repeat-1", "form:repeat-n", "form:repeat-255", "composite:instructions-flag-not-on-last-component", "form:flag-literal", "form:overlap-bit", "size<=65535", "size>131070",
+		"form:delta=+32767", "form:delta=-32768", "form:coordinate-at-int16-limit", "composite:instructions>=256-bytes", "simple:instructions>=256-bytes"}
 	for _, a := range []string{"x", "y"} {
 		for _, f := range []string{"same", "short-pos", "short-neg", "long"} {
 			req = append(req, "form:"+a+"-"+f)
